@@ -95,6 +95,11 @@ fn run(ctx: &Ctx, rep: &Report) {
         let mut rng = Rng::for_case(ctx.seed, "C09", i);
         let mut cfg = gen_cfg(&mut rng, &GenOpts { big_percent: 1, big_bytes: (100_000, 400_000), ..Default::default() });
         cfg.large_files = i % 5 == 4;
+        // the first configurations walk through every (compression type, level) pair once
+        let ladder = crate::checks::c08::ladder();
+        if (i as usize) < ladder.len() {
+            cfg.compression = ladder[i as usize].clone();
+        }
         let dir = base.join(format!("c{i}"));
         let mut local = BTreeMap::new();
         match built_items(&cfg, &dir, &keys, &mut rng, i % 3 == 0) {
